@@ -134,6 +134,7 @@ func runOne(id string, pc *propCheck, wp **World, root, verif, tier string, seed
 
 func resetCaches() {
 	rolesCache = nil
+	paramOwner = nil
 	closeCache = map[*FuncInfo]*closeAnalysis{}
 	predCache = map[*types.Func]*predSummary{}
 	helperMemo = map[string]*helperSummary{}
